@@ -74,7 +74,8 @@ Fixpoint walk (fuel : nat) (cur : hash) (path : list hash) (new : list hash) (cf
     match dget cur (pl cf) with
     | None => Ret (path, new, cf)                                   (* h is None: break *)
     | Some nxt =>
-      let new := sdiscard nxt new in
+      if mem nxt new then Ret (path ++ [nxt], new, cf)              (* if h in new_hashes: path.append(h); break *)
+      else
       match dget nxt (tfb cf) with
       | Some ((b0 :: _) as pre) =>                                    (* if preceding_path: *)
         let tfb' := ddel nxt (tfb cf) in
@@ -286,6 +287,7 @@ Definition lift {A B} (m : outcome A) (k : A -> outcome B) : outcome B := bind m
 Definition add_headers (prio pref : list hash) (hs : list header) (bc : blockchain)
   : outcome (list op * blockchain) :=
   lift (longest_local pref bc) (fun '(old_chain, bc) =>
+  let hs := filter (fun x => negb (hh x =? bc_parent bc)) hs in    (* if h == self.parent_hash: continue *)
   let w := set_weights hs (bc_w bc) in
   lift (load_nodes prio (map (fun x => (hh x, hp x)) hs) (bc_cf bc)) (fun cf =>
   let bc1 := mkBC (bc_parent bc) (bc_locked bc) (bc_h2i bc) w cf None in
@@ -355,7 +357,8 @@ Definition lock_to_index (prio pref : list hash) (index : nat) (bc : blockchain)
         let nodes := lock_iter (pl (bc_cf bc)) (tfb (bc_cf bc)) (rev excluded) [] in
         match load_nodes prio nodes empty_finder with
         | Ret cf =>
-          LockDone (mkBC (last excluded (bc_parent bc)) (bc_locked bc ++ items) (bc_h2i bc) (bc_w bc) cf None)
+          LockDone (mkBC (last excluded (bc_parent bc)) (bc_locked bc ++ items) (bc_h2i bc) (bc_w bc) cf
+                         (Some (firstn (length longest - k) longest)))   (* longest_chain[: len(longest_chain) - index] *)
         | Raise e => LockCrash e
         | OutOfFuel => LockFuel
         end
